@@ -565,6 +565,21 @@ class SVal:
         it = self.ev(st.iter, env, pc) if isinstance(st, ast.For) else None
         if it_override is not None:
             it = it_override
+        if it is not None and not getattr(st, 'orelse', None) and it[0] in ('tuple', 'list') and 1 <= len(it[1]) <= 4 \
+                and not any(isinstance(x, tuple) and x and x[0] in ('star', 'when', 'each', 'acc') for x in it[1]) \
+                and not any(isinstance(x, (ast.Break, ast.Continue)) for s_ in st.body for x in walk_no_nested(s_)
+                            if not isinstance(x, (ast.For, ast.While))):
+            # a loop over a short literal sequence is its body once per element (each element bound to the target in turn)
+            has_inner_loop = any(isinstance(x, (ast.For, ast.While)) for s_ in st.body for x in walk_no_nested(s_))
+            if not has_inner_loop:
+                cur, cpc = dict(env), pc
+                for item in it[1]:
+                    self.assign(st.target, item, cur, cpc, st)
+                    r = self.block(st.body, cur, cpc)
+                    if r is None:
+                        return None
+                    cur, cpc = r
+                return cur, cpc
         if it is not None and not getattr(st, 'orelse', None):
             # `for x in (X if c else [])`, also spelt `for i in range(len(X if c else []))`: the loop over X, run when c holds
             g = _gated_iter(it)
